@@ -19,3 +19,4 @@ require (
 )
 
 replace github.com/filecoin-project/go-jsonrpc => /repo
+require github.com/gorilla/websocket v1.4.2
